@@ -15,7 +15,7 @@ SPEC = {
          "eval": "fun c => let '(k, same, hooks) := c in check_var k same hooks", "per_shard": 200},
     ],
     "classes": {1: "static-type-name-not-registered", 2: "unvalidated-field-not-in-registry"},
-    "n_quick": 400, "n_thorough": 8000,
+    "n_quick": 400, "n_thorough": 1600,
     "level": "proof",
     "what_violation": "response with pass-through extensions differs from the response without, or hooks not nested / not in lifecycle order",
     "rule": ("derive-built schema family executed with stacks of 0..3 recording pass-through extensions (strict and fast validation, "
